@@ -205,11 +205,21 @@ class PreOCF(ABC):
             )
             return
 
-        if path.suffix == ".json":
+        # Mirror the format selection of save_metadata
+        suffix = path.suffix.lower()
+        if suffix == ".json":
             data = json.loads(path.read_text())
-        else:  # assume pickle by default
+        elif suffix in {".pkl", ".pickle"}:
             with path.open("rb") as fd:
                 data = pickle.load(fd)
+        else:
+            # save_metadata writes either format to such a path (JSON by default)
+            with path.open("rb") as fd:
+                raw = fd.read()
+            try:
+                data = json.loads(raw.decode("utf-8"))
+            except (UnicodeDecodeError, ValueError):
+                data = pickle.loads(raw)
 
         if not isinstance(data, dict):
             raise ValueError("Metadata file did not contain a dict")
